@@ -28,13 +28,15 @@ open Marwood.Heap (GcState)
 
 /-! ## the modelled heap operations -/
 
+variable {V : VCell → Prop}
+
 theorem val_not_lambda (v : VCell) : ∀ lam, CCell.val v ≠ CCell.lambda lam := by intro lam h; cases h
 theorem val_not_cont {P : Cont → Prop} (v : VCell) : ∀ k, CCell.val v = CCell.cont k → P k := by intro k h; cases h
 theorem lexEnv_not_lambda (ss : List VCell) : ∀ lam, CCell.lexEnv ss ≠ CCell.lambda lam := by intro lam h; cases h
 theorem lexEnv_not_cont {P : Cont → Prop} (ss : List VCell) : ∀ k, CCell.lexEnv ss = CCell.cont k → P k := by
   intro k h; cases h
 
-theorem putNew_grows {h : CHeap} (inv : CInv h) (v : VCell) : Grows NoCont h (putNew h v).1 := by
+theorem putNew_grows {h : CHeap} (inv : CInvG V h) (v : VCell) : Grows NoCont h (putNew h v).1 := by
   unfold putNew
   split
   · split
@@ -43,13 +45,13 @@ theorem putNew_grows {h : CHeap} (inv : CInv h) (v : VCell) : Grows NoCont h (pu
       exact g.trans (Grows.of_eq (g.inv inv (fun c hc => hc.elim)) rfl rfl rfl rfl)
   · exact cput_grows inv (val_not_lambda v) (val_not_cont v)
 
-theorem putV_grows {h : CHeap} (inv : CInv h) (v : VCell) : Grows NoCont h (putV h v).1 := by
+theorem putV_grows {h : CHeap} (inv : CInvG V h) (v : VCell) : Grows NoCont h (putV h v).1 := by
   unfold putV
   split
   · exact Grows.refl inv
   · exact putNew_grows inv v
 
-theorem maybePutV_grows {h : CHeap} (inv : CInv h) (v : VCell) : Grows NoCont h (maybePutV h v).1 := by
+theorem maybePutV_grows {h : CHeap} (inv : CInvG V h) (v : VCell) : Grows NoCont h (maybePutV h v).1 := by
   unfold maybePutV
   split
   · exact Grows.refl inv
@@ -62,7 +64,7 @@ theorem envAt_cell {h : CHeap} {e : Nat} {ss : List VCell} (he : envAt h e = som
   · rename_i ss' heq; cases he; exact heq
   · cases he
 
-theorem envPut_grows {h h' : CHeap} (inv : CInv h) {e k : Nat} {v : VCell} (hp : envPut h e k v = some h') :
+theorem envPut_grows {h h' : CHeap} (inv : CInvG V h) {e k : Nat} {v : VCell} (hp : envPut h e k v = some h') :
     Grows NoCont h h' := by
   unfold envPut at hp
   split at hp
@@ -75,7 +77,7 @@ theorem envPut_grows {h h' : CHeap} (inv : CInv h) {e k : Nat} {v : VCell} (hp :
     · cases hp
   · cases hp
 
-theorem makeClosure_grows {h h' : CHeap} (inv : CInv h) {lam ep bp : Nat} {st : Stack} {c : VCell}
+theorem makeClosure_grows {h h' : CHeap} (inv : CInvG V h) {lam ep bp : Nat} {st : Stack} {c : VCell}
     (hm : makeClosure h lam ep bp st = .ok (h', c)) : Grows NoCont h h' := by
   unfold makeClosure at hm
   split at hm
@@ -86,7 +88,7 @@ theorem makeClosure_grows {h h' : CHeap} (inv : CInv h) {lam ep bp : Nat} {st : 
     have i1 := g1.inv inv (fun c hc => hc.elim)
     exact g1.trans (cput_grows i1 (val_not_lambda _) (val_not_cont _))
 
-theorem makeActivation_grows {h h' : CHeap} (inv : CInv h) {lam env bp : Nat} {st : Stack} {e : Nat}
+theorem makeActivation_grows {h h' : CHeap} (inv : CInvG V h) {lam env bp : Nat} {st : Stack} {e : Nat}
     (hm : makeActivation h lam env bp st = .ok (h', e)) : Grows NoCont h h' := by
   unfold makeActivation at hm
   split at hm
@@ -102,13 +104,20 @@ theorem makeActivation_grows {h h' : CHeap} (inv : CInv h) {lam env bp : Nat} {s
 /-- **What the stack discipline needs from the unmodelled operations** (`ExtOps`; a parameter, not an
     axiom): they keep the heap invariant — every lambda cell of the heap they return passes the verifier,
     in particular the lambda `eval` has just compiled — and leave the bytecode of existing lambdas alone. -/
-structure ExtCodeLaws (ext : ExtOps) : Prop where
-  builtinEval : ∀ {h h' : CHeap} {id : Nat} {args : List VCell} {v : VCell}, CInv h →
-    ext.builtinEval h id args = .ok (h', v) → CInv h' ∧ ∀ l bc, codeC h l = some bc → codeC h' l = some bc
-  compileEval : ∀ {h h' : CHeap} {v lam : VCell}, CInv h →
-    ext.compileEval h v = .ok (h', lam) → CInv h' ∧ ∀ l bc, codeC h l = some bc → codeC h' l = some bc
-  vectorPush : ∀ {h h' : CHeap} {vec v : VCell}, CInv h →
-    ext.vectorPush h vec v = .ok h' → CInv h' ∧ ∀ l bc, codeC h l = some bc → codeC h' l = some bc
+structure ExtCodeLawsG (V : VCell → Prop) (ext : ExtOps) : Prop where
+  builtinEval : ∀ {h h' : CHeap} {id : Nat} {args : List VCell} {v : VCell}, CInvG V h →
+    ext.builtinEval h id args = .ok (h', v) → CInvG V h' ∧ ∀ l bc, codeC h l = some bc → codeC h' l = some bc
+  compileEval : ∀ {h h' : CHeap} {v lam : VCell}, CInvG V h →
+    ext.compileEval h v = .ok (h', lam) → CInvG V h' ∧ ∀ l bc, codeC h l = some bc → codeC h' l = some bc
+  vectorPush : ∀ {h h' : CHeap} {vec v : VCell}, CInvG V h →
+    ext.vectorPush h vec v = .ok h' → CInvG V h' ∧ ∀ l bc, codeC h l = some bc → codeC h' l = some bc
+
+/-- the law over the untyped invariant (continuation snapshots constrained in shape only) -/
+abbrev ExtCodeLaws := ExtCodeLawsG (fun _ => True)
+
+/-- the law over the value-typed invariant: the same three clauses, the heap invariant on both sides being
+    `CInvG IsValue` (continuation snapshots hold values where the verifier types a value) -/
+abbrev ExtCodeLawsV := ExtCodeLawsG IsValue
 
 /-! ## the guarded callee -/
 
@@ -156,7 +165,7 @@ theorem verifyLam_entry {bc : List VCell} {t : LamTy} (h : verifyLam bc = some t
       · rename_i heq; split at heq <;> cases heq
       · cases h
 
-theorem procAt_ty {h : CHeap} (inv : CInv h) {l : Nat} (hp : procAt h l = true) :
+theorem procAt_ty {h : CHeap} (inv : CInvG V h) {l : Nat} (hp : procAt h l = true) :
     ∃ t, tyOf (codeC h) l = some t ∧ t.entry = false := by
   unfold procAt at hp
   cases hl : lambdaAt h l with
@@ -238,7 +247,16 @@ theorem gcallee_cont {h : CHeap} {v : VCell} {c : Cont} (hc : gcallee h v = .con
   | continuation c' => simp only [hcal] at hc; exact hc
   | other => simp only [hcal] at hc; cases hc
 
-theorem globPut_grows {h : CHeap} (inv : CInv h) (n : Nat) (v : VCell) :
+theorem lambdaInfo_args {h : CHeap} (inv : CInvG V h) {l : Nat} {bc : List VCell} {info : LambdaInfo}
+    (hc : codeC h l = some bc) (hi : (lambdaAt h l).map (fun lam => (⟨lam.args.length⟩ : LambdaInfo)) = some info) :
+    argNeed bc ≤ info.argc := by
+  obtain ⟨lam, h1, h2⟩ := codeC_some hc
+  rw [lambdaAt_iff.mpr h1] at hi
+  cases hi
+  subst h2
+  exact inv.lamArgs l lam h1
+
+theorem globPut_grows {h : CHeap} (inv : CInvG V h) (n : Nat) (v : VCell) :
     Grows NoCont h { h with globals := h.globals.setIfInBounds n v } :=
   Grows.of_eq inv rfl rfl rfl rfl
 
@@ -250,6 +268,19 @@ def concreteLaws (ext : ExtOps) (ecl : ExtCodeLaws ext) : CodeLaws (gops ext) wh
   e := 0
   code := codeC
   HInv := CInv
+  Val _ := True
+  val_imm := fun _ _ => trivial
+  put_val := fun _ _ => trivial
+  maybePut_val := fun _ _ => trivial
+  newCont_val := fun _ _ => trivial
+  makeClosure_val := fun _ => trivial
+  vectorPush_val := fun _ => trivial
+  globGet_val := fun _ _ => trivial
+  envGet_val := fun _ _ => trivial
+  envGet_val2 := fun _ _ => trivial
+  info_code := by
+    intro h l bc info hi hc hinfo
+    exact lambdaInfo_args hi hc hinfo
   fetch_code := by
     intro h l bc _ hc o
     obtain ⟨lam, h1, h2⟩ := codeC_some hc
